@@ -141,6 +141,7 @@ type GenesisSpec struct {
 	Pnft     *PnftGenesisSpec  `json:"pnft,omitempty"`
 	ExtraDenoms []string       `json:"extra_denoms,omitempty"` // additional bank denoms given to every account
 	DropEmptySections bool     `json:"drop_empty_sections,omitempty"` // leave out app_state sections that are {}
+	BurnFunded bool            `json:"burn_funded,omitempty"` // the burn address holds spendable coins in genesis (a bank balance; no auth account exists for it)
 	LagCounters bool           `json:"lag_counters,omitempty"` // AOL topic record counters lag the records listed (valid for the module, not self-consistent)
 }
 
@@ -205,6 +206,9 @@ func (e *Env) BuildGenesis(a *app.App, gs *GenesisSpec) ([]byte, *Model) {
 			cs = cs.Add(sdk.NewInt64Coin(d, 1_000_000_000_000))
 		}
 		bals = append(bals, banktypes.Balance{Address: acc.Addr.String(), Coins: cs})
+	}
+	if gs.BurnFunded {
+		bals = append(bals, banktypes.Balance{Address: BurnAddress, Coins: sdk.NewCoins(sdk.NewInt64Coin(FeeDenom, 7_000_000))})
 	}
 	state := a.DefaultGenesis()
 	state, err := simtestutil.GenesisStateWithValSet(a.AppCodec(), state, e.ValSet, gaccs, bals...)
